@@ -12,7 +12,8 @@ from vf.model import ramodel as M
 
 RULE = ('cases = seeded ragged arrays (1-7 rows, row length 1-6, equal/unequal, '
         '1-D or vector elements, 4 constructions) each read through ~40 index '
-        'expressions of the grammar + attributes/iteration/flatten/where; '
+        'expressions of the grammar + attributes/iteration/flatten/where; plus '
+        'arrays of more than 20000 rows (input checking switched off); '
         'non-trivial = read that touches >=2 rows of different length, or has '
         'a negative bound/step, or yields an empty row; distinct by (row '
         'lengths, element shape, construction, index expression)')
@@ -26,8 +27,10 @@ ASSUMPTIONS = [
 
 def shards(tier):
     if tier == 'quick':
-        return [dict(kind='reads', n=1600, parts=16, timeout=600)]
-    return [dict(kind='reads', n=48000, parts=16, timeout=3000)]
+        return [dict(kind='reads', n=1600, parts=15, timeout=600),
+                dict(kind='big', n=2, parts=1, timeout=600)]
+    return [dict(kind='reads', n=48000, parts=15, timeout=3000),
+            dict(kind='big', n=24, parts=1, timeout=3000)]
 
 
 def setup(ctx):
@@ -245,7 +248,48 @@ def compare(ctx, form, idx, rows, call, desc):
     ctx.count('reads_agree')
 
 
+def run_big(ctx, rng, idx):
+    """More than 20000 rows: the constructor switches its input checking
+    off above that size."""
+    n = int(rng.integers(20001, 26000))
+    lens = rng.integers(1, 4, size=n)
+    if idx % 2:
+        lens[:] = 2
+    starts = np.concatenate([[0], np.cumsum(lens)[:-1]])
+    flat = np.arange(int(lens.sum()), dtype=np.int64)
+    rows = [flat[s_:s_ + L] for s_, L in zip(starts, lens)]
+    how = ['list-of-arrays', 'flat+array-lengths'][idx % 2]
+    a = R([r.copy() for r in rows]) if how == 'list-of-arrays' else \
+        R(flat.copy(), lengths=lens.copy())
+    desc = {'lens': 'n=%d, lengths 1-3' % n, 'elem': [], 'how': how,
+            'dtype': 'int64'}
+    ctx.describe(desc)
+    ctx.count('reads_checked')
+    if len(a) != n or not np.array_equal(a.lengths, lens) or \
+            not np.array_equal(a.flatten(), flat) or \
+            not np.array_equal(a.starts, starts):
+        ctx.violation('ra.read.big.attrs', 'attributes of a %d-row array '
+                      'disagree with the rows' % n)
+        return
+    for _ in range(60):
+        i = int(rng.integers(-n, n))
+        compare(ctx, 'int', i, rows, lambda: a[i], desc)
+        j = int(rng.integers(0, lens[i]))
+        compare(ctx, 'elem', (i, j), rows, lambda: a[i, j], desc)
+    lo = int(rng.integers(0, n - 50))
+    for ix in ((slice(lo, lo + 40), slice(None, 2)),
+               (slice(lo, lo + 40, 3), slice(-1, None)),
+               ([lo, lo + 7, -1], slice(0, 1))):
+        compare(ctx, 'slice-slice' if isinstance(ix[0], slice)
+                else 'list-slice', ix, rows, lambda: a[ix], desc)
+    compare(ctx, 'rowslice', slice(lo, lo + 30), rows,
+            lambda: a[lo:lo + 30], desc)
+    ctx.nontriv('big', n, how)
+
+
 def run_case(ctx, kind, rng, idx):
+    if kind == 'big':
+        return run_big(ctx, rng, idx)
     elem_shape = [(), (), (), (3,), (2,)][int(rng.integers(0, 5))]
     rows = M.make_rows(rng, elem_shape=elem_shape)
     how, a, _ = build(rng, rows)
